@@ -26,18 +26,27 @@ type scenario struct {
 	TakeOver bool     `json:"takeover"`
 	// Conflicts: budget of foreign writes (resourceVersion bumps) landing just before a write of a pass
 	Conflicts int `json:"conflicts"`
+	// Rearchive: all passes run in one long-lived operator process and the user may set the
+	// archived ObjectSet back to Active (the API allows it) and archive it again
+	Rearchive bool `json:"rearchive"`
 }
 
 func (sc scenario) name() string {
-	return fmt.Sprintf("B1 phases=%d delegated=%03b archive=%v holds=%v restarts=%d takeover=%v conflicts=%d", sc.N, sc.Mask, sc.Archive, sc.Holds, sc.Restarts, sc.TakeOver, sc.Conflicts)
+	return fmt.Sprintf("B1 phases=%d delegated=%03b archive=%v holds=%v restarts=%d takeover=%v conflicts=%d rearchive=%v", sc.N, sc.Mask, sc.Archive, sc.Holds, sc.Restarts, sc.TakeOver, sc.Conflicts, sc.Rearchive)
 }
 
 func system(sc scenario) *world.System {
 	cfg := osw.B1(sc.N, sc.Mask)
 	return &world.System{
-		Name: sc.name(),
+		Name:       sc.name(),
+		Persistent: sc.Rearchive,
 		Init: func() *world.World {
 			w := osw.NewWorld()
+			if sc.Rearchive {
+				w.LongLived()
+				w.Budget["unarchive"] = 1
+				w.Budget["rearchive"] = 1
+			}
 			w.MustCreate(world.NewObjectSet("r1", osw.PhaseSpecs(cfg, 1), world.StdProbes()))
 			w.MustCreate(world.NewObjectSet("x", nil, nil))
 			if !osw.Settle(w, 40, true) {
@@ -82,6 +91,22 @@ func system(sc scenario) *world.System {
 					}})
 				}
 				return evs // teardown is explored from the moment the user acts
+			}
+			if lc := osw.Lifecycle(os.Content); sc.Rearchive && !kmodel.Terminating(os.Content) {
+				if lc == "Archived" && w.Budget["unarchive"] > 0 {
+					evs = append(evs, world.Event{Name: "user:unarchive:r1", Apply: func(w *world.World) *world.Pass {
+						w.Budget["unarchive"]--
+						osw.SetLifecycle(w, "r1", "Active")
+						return nil
+					}})
+				}
+				if lc == "Active" && w.Budget["unarchive"] == 0 && w.Budget["rearchive"] > 0 {
+					evs = append(evs, world.Event{Name: "user:archive-again:r1", Apply: func(w *world.World) *world.Pass {
+						w.Budget["rearchive"]--
+						osw.SetLifecycle(w, "r1", "Archived")
+						return nil
+					}})
+				}
 			}
 			evs = append(evs, osw.ReconcileEvents(w)...)
 			evs = append(evs, osw.ReleaseEvents(w)...)
@@ -304,7 +329,13 @@ func scenarios(quick bool) []scenario {
 		for _, m := range []uint{0, 0b010, 0b101, 0b111} {
 			out = append(out, scenario{N: 3, Mask: m, Archive: arch, Holds: []string{"c", "b"}, Restarts: 1, TakeOver: true, Conflicts: 1})
 		}
+		if arch {
+			out = append(out, scenario{N: 2, Mask: 0, Archive: true, Holds: []string{"a"}, Rearchive: true})
+		}
 		if !quick {
+			if arch {
+				out = append(out, scenario{N: 3, Mask: 0, Archive: true, Holds: []string{"b"}, Rearchive: true}, scenario{N: 2, Mask: 0b10, Archive: true, Holds: []string{"a"}, Rearchive: true})
+			}
 			for m := uint(0); m < 8; m++ {
 				for _, h := range [][]string{{}, {"c"}, {"b", "g"}, {"a", "b", "c"}} {
 					out = append(out, scenario{N: 3, Mask: m, Archive: arch, Holds: h, Restarts: 2, TakeOver: true, Conflicts: 2})
@@ -317,7 +348,7 @@ func scenarios(quick bool) []scenario {
 
 func run(o checks.Opts) *report.Report {
 	rep := report.New("C04", "bfs")
-	rep.Rule = "explicit-state BFS to closure from the fully rolled-out state: user deletes or archives the ObjectSet, then reconcile(ObjectSet / each ObjectSetPhase), finalizer holder releasing foreign finalizers, garbage collector, third party making another ObjectSet the controller of b, (budgeted) an operator crash before request i of a pass for every i, and (budgeted) another actor's write to the target landing just before write i of a pass for every i (delete precondition / update conflict); monitors on every delete / finalizer removal / Archived=True write and an invariant on every state"
+	rep.Rule = "explicit-state BFS to closure from the fully rolled-out state: user deletes or archives the ObjectSet, then reconcile(ObjectSet / each ObjectSetPhase), finalizer holder releasing foreign finalizers, garbage collector, third party making another ObjectSet the controller of b, (budgeted) an operator crash before request i of a pass for every i, and (budgeted) another actor's write to the target landing just before write i of a pass for every i (delete precondition / update conflict); (one system: all passes in one long-lived operator process, the archived ObjectSet set back to Active and archived again); monitors on every delete / finalizer removal / Archived=True write and an invariant on every state"
 	scs := scenarios(o.Quick())
 	rep.Bounds["systems"] = len(scs)
 	for i, sc := range scs {
